@@ -1679,12 +1679,15 @@ func vf6ParseWindow(l string) (*vf6Window, error) {
 // holds those bytes, must not offer that snapshot in the first place. A cache
 // that keeps offering the snapshot while having dropped the log behind it makes
 // every connection replay the snapshot again: it is never followed by the stream.
-func (h *vf6H) gcLoop(backend string, r *vfutil.Rand, tmp string) {
+func (h *vf6H) gcLoop(backend string, r *vfutil.Rand, tmp string, fixed []int64) {
 	s := h.s
 	id := vf6HexId(r)
 	left, size := int64(r.Range(100, 2000)), int64(r.Range(4, 24))
 	maxSize, logSize := int64(r.Range(48, 96)), int64(r.Range(8, 24))
 	n := maxSize + int64(r.Range(16, 80)) // more log than fits beside the snapshot
+	if len(fixed) == 5 {
+		maxSize, logSize, left, size, n = fixed[0], fixed[1], fixed[2], fixed[3], fixed[4]
+	}
 	w := &vf6World{id1: id, id2: vf6ZeroId, switchOff: -2, sb: 1, s1: uint64(r.Range(1, 99999)), s2: 2, so: 3}
 	h.nCase++
 	dir := filepath.Join(tmp, fmt.Sprintf("g%d", h.nCase))
@@ -2303,6 +2306,17 @@ func TestVerifC06(t *testing.T) {
 	}
 
 	for _, l := range vfutil.Corpus("C06") {
+		if strings.HasPrefix(l, "gcloop ") {
+			// gcloop <m|d> <maxSize> <logSize> <left> <size> <n>
+			f := strings.Fields(l)
+			var v []int64
+			for _, x := range f[2:] {
+				n, _ := strconv.ParseInt(x, 10, 64)
+				v = append(v, n)
+			}
+			h.gcLoop(f[1], r, tmp, v)
+			continue
+		}
 		if strings.HasPrefix(l, "window ") {
 			wd, err := vf6ParseWindow(l)
 			if err != nil {
@@ -2346,7 +2360,7 @@ func TestVerifC06(t *testing.T) {
 		c := vf6GenCase(r)
 		if i%32 == 5 {
 			// collector on (MaxSize > 0): is a replayed cached snapshot followed by the stream?
-			h.gcLoop(vfutil.Pick(r, []string{"m", "m", "d"}), r, tmp)
+			h.gcLoop(vfutil.Pick(r, []string{"m", "m", "d"}), r, tmp, nil)
 			continue
 		}
 		if i%16 == 3 {
